@@ -64,7 +64,7 @@ PROPS = {
     },
     'C05': {
         'lean_modules': ['C05', 'ArithTieHLL'],
-        'required_theorems': ['tie_hllRegisterIndex', 'tie_hllStoredValueMem', 'tie_hllStoredValueRedis', 'C05_update_ok_iff', 'C05_registers_confined', 'C05_index_range'],
+        'required_theorems': ['tie_hllRegisterIndex', 'tie_hllStoredValueRedis', 'C05_update_ok_iff', 'C05_registers_confined', 'C05_index_range'],
         'suites': ['hllacc', 'hll', 'redisconc'],
         'level': 'proof',
         'explanation': 'The accuracy clause is FALSE of the pinned code (finding D4: the register index is the rank and the stored value is hash bits); what is proved is the exact characterisation of what the code computes '
